@@ -109,6 +109,12 @@ func stateInlineAnnotationTextPrefix(s *Scanner, c byte) state {
 		s.step = stateInlineAnnotationTextPrefix2
 
 	default:
+		if s.lengthComputing && s.stack.Len() == 1 {
+			// The annotation of the top-level value (nothing but the annotation
+			// is open): the first byte after the schema, like in stateEndTop.
+			s.found(lexeme.EndTop)
+			return scanContinue
+		}
 		panic(s.newDocumentErrorAtCharacter("after object in inline annotation"))
 	}
 
